@@ -10,8 +10,10 @@ PROPS["C11"] = dict(
     rule="schedules of Add/Write/Commit/Abort/Close, Get/ReadAt/Close and the three persist sub-steps (gated by a hook, so that "
          "background and synchronous persistence interleave with other callers) over 6 keys on NewDirectoryCache with "
          "MaxLRUCacheEntry 1..3, MaxCacheFds 1..3, all of SyncAdd/Direct/FadvDontNeed, per-call Direct()/PassThrough(), and on "
-         "NewMemoryCache; plus concurrent stress runs (oracle only); non-trivial = at least one hit and two writers; "
-         "distinct = distinct (config, executed sub-steps, outputs)",
+         "NewMemoryCache: 2/3 random op sequences (10-60 ops), 1/3 eviction-pressure scenarios (publish, hold readers / a pending "
+         "persist step, evict by other keys, let recycled buffers be overwritten by new writers, then read), a hand-written corpus, "
+         "plus 6 concurrent stress runs (8 goroutines, oracle only); self-describing values (key, writer, pattern), zero-length "
+         "values, duplicate adds; non-trivial = at least one hit and two writers; distinct = distinct (config, executed sub-steps, outputs)",
     assumptions=[
         "each cacheutil.LRUCache method (with the OnEvicted callbacks it runs) is atomic under the cache mutex; open/rename/unlink/write on a "
         "private wip file are atomic syscalls, rename replaces atomically and an open descriptor keeps reading the old inode (POSIX)",
